@@ -78,9 +78,10 @@ ScalarKind(s) == CASE s.cls = "RealInterval" -> {"real"}
 
 (* "both endpoints attainable" for integer ranges: decidable by observation only for narrow ranges and many draws --
    a correct sampler over at most 6 values misses a given value in 400 draws with probability (5/6)^400 < 1e-31 *)
-AttainabilityCheckable(s, n) == n >= 400 /\ Max2(s.start, s.stop) - Min2(s.start, s.stop) + 1 <= 6
+DeclaredIntegers(s) == Min2(s.start, s.stop) .. Max2(s.start, s.stop)          \* both ends included
+AttainabilityCheckable(s, n) == n >= 400 /\ Cardinality(DeclaredIntegers(s)) <= 6
 EndpointsSeen(s, seen, n) ==
-  /\ \A v \in Elems(seen) : Min2(s.start, s.stop) <= v /\ v <= Max2(s.start, s.stop)
+  /\ Elems(seen) \subseteq DeclaredIntegers(s)
   /\ AttainabilityCheckable(s, n) => {s.start, s.stop} \subseteq Elems(seen)
 
 (* ------------------------------------------------------------------ arrays *)
@@ -265,4 +266,8 @@ ConstructionLaw(cfg) == cfg.cls = "RandomFunction" => (ConstructionMeetsContract
 Combos(dims) == [cls : {"SquareMatrices"}, dimension : dims, symmetry : Symmetries, traceless : BOOLEAN,
                  determinant : Determinants, complex : BOOLEAN, norm : {<<2, 10>>}]
 AcceptedCount(dims) == Cardinality({x \in Combos(dims) : Accepts(x)})
+\* the count of the property statement: 214 of the 288 combinations of dimension 2-5 x 6 symmetries x traceless x
+\* determinant {None, 0, 1} x complex are accepted (evaluated at the start of every TLC run that uses this module)
+ASSUME Cardinality(Combos(2..5)) = 288
+ASSUME AcceptedCount(2..5) = 214
 =============================================================================
